@@ -1650,6 +1650,9 @@ class AnsiString:
             idx = self._s.find(s, idx)
             split_idx_len.append((idx, len(s)))
             idx += len(s)
+            if sep is not None:
+                # The next piece starts right behind the separator; it may look like the separator's tail
+                idx += len(sep)
 
         ansi_str_splits = []
         for idx, length in split_idx_len:
